@@ -2,4 +2,5 @@
 (* Root module of the exhaustive configurations: the constants plus the symmetry set. *)
 EXTENDS HeadSyncConsts
 Sym  == Permutations(Trees) \cup Permutations(Changes) \cup Permutations(Peers)
+SymTC == Permutations(Trees) \cup Permutations(Changes)
 =============================================================================
